@@ -1554,6 +1554,10 @@ mod convert {
 
         /// Call [`LineProgram::end_sequence`] for the converted program.
         pub fn end_sequence(&mut self, address_offset: u64) {
+            // The end of the sequence may be in the middle of a VLIW instruction.
+            if self.from_row.end_sequence() {
+                self.program.row().op_index = self.from_row.op_index();
+            }
             self.program.end_sequence(address_offset);
         }
 
